@@ -25,6 +25,13 @@ def main():
     mod = importlib.import_module(prop.lower())
     chk = checklib.Check(prop, a.tier, seed)
     chk.replaying = bool(a.replay)
+    if not a.replay:
+        # replay files of earlier runs are stale
+        rdir = os.path.join(checklib.REPLAYS, prop)
+        if os.path.isdir(rdir):
+            for fn in os.listdir(rdir):
+                if fn.endswith('.json'):
+                    os.unlink(os.path.join(rdir, fn))
     try:
         mod.run(chk, a.tier, seed, replay=a.replay)
         rc = chk.finish()
